@@ -373,6 +373,12 @@ func c11Build(s *simcore.Source) c11Scenario {
 			httpCacheYAML = "          http_cache:\n            enabled: true\n            default_ttl: 5m\n"
 			mechTTL = simcore.Pick(s, []string{"5m", "0s"}, "mech-ttl")
 			sc.describe += "http-cache(mech-ttl=" + mechTTL + ") "
+			if strings.Contains(fwd, "X-Extra") && s.Draw(2, "static-value-beside-forwarded") == 1 {
+				// the endpoint sets a header the mechanism also forwards: the request carries two values of it, the
+				// client's being the second
+				headersYAML += "            X-Extra: \"c\"\n"
+				sc.describe += "static+forwarded-header "
+			}
 			switch s.Draw(3, "endpoint-auth") {
 			case 1:
 				httpCacheYAML += "          auth:\n            type: api_key\n            config:\n              in: header\n              name: X-Api-Key\n              value: k\n"
